@@ -9,6 +9,7 @@ from ..core import Phase, Result
 from .. import grammar as G
 from .. import reference as R
 from .. import snapshot
+from ..represent import Rep, tapes
 from ..util import attempt
 
 import fsic
@@ -34,7 +35,7 @@ LEVEL_TEXT = ('Each generated program is built through every route and the resul
               'attribute and by full-state snapshots after evaluation and solution on identical data.')
 LEVEL_NOTE = 'Trusted: CPython exec; the snapshot function. Not covered: converters that are not pure functions of the symbol.'
 
-CONVERTERS = ['default', 'identity', 'wrap-if', 'comment-prefix', 'try-guard', 'assert-guard', 'debug-guard', 'stateful']
+CONVERTERS = ['default', 'identity', 'wrap-if', 'comment-prefix', 'try-guard', 'assert-guard', 'debug-guard', 'stateful', 'recorder']
 
 
 class StatefulConverter:
@@ -49,6 +50,19 @@ class StatefulConverter:
         return f'# {self.tag}\n' + symbol.code + (f'\n{self.tag}_marker = 1' if self.tag != 'first' else '')
 
 
+class RecorderConverter(list):
+    """A callable that keeps what it was given in itself - a list subclass, hence empty (falsy) when it is passed in."""
+
+    def __init__(self, log):
+        super().__init__()
+        self.log = log
+
+    def __call__(self, symbol):
+        self.log.append(symbol.name)
+        self.append(symbol.name)
+        return '# recorded\n' + symbol.code
+
+
 _STATEFUL = {}
 
 
@@ -56,6 +70,8 @@ _STATEFUL = {}
 def make_converter(kind, log):
     if kind == 'default':
         return None
+    if kind == 'recorder':
+        return RecorderConverter(log)
     if kind == 'stateful':
         # the SAME object for every build of this check process; its state is advanced before each use
         conv = _STATEFUL.setdefault('conv', StatefulConverter(log))
@@ -102,6 +118,8 @@ def check_case(case):
     prog = case['prog']
     opts = {k: v for k, v in (case.get('opts') or {}).items() if v is not None}
     kind = case.get('converter', 'default')
+    rep = Rep(case.get('rep'))
+    ropts = {k_: rep.int(v_) for k_, v_ in opts.items()}       # the same lengths as NumPy integers
     feats = G.program_features(prog) if prog else set()
     res = Result(classes=['converter:' + kind] + sorted(feats))
     text, _ = G.render_program(prog, [])
@@ -130,7 +148,7 @@ def check_case(case):
         # an earlier build with the same symbols, options and converter object, in another state of the converter
         _STATEFUL['n'] = _STATEFUL.get('n', 0) + 1
         for hints in (True, False):
-            attempt(fsic.build_model, symbols, converter=make_converter(kind, []), with_type_hints=hints, **opts)
+            attempt(fsic.build_model, symbols, converter=make_converter(kind, []), with_type_hints=hints, **ropts)
         _STATEFUL['n'] += 1
     routes = {}
     texts = {}
@@ -138,8 +156,8 @@ def check_case(case):
         tag = 'typed' if hints else 'untyped'
         log_d, log_b = [], []
         d = attempt(fsic.build_model_definition, symbols, converter=make_converter(kind, log_d),
-                    with_type_hints=hints, **opts)
-        b = attempt(fsic.build_model, symbols, converter=make_converter(kind, log_b), with_type_hints=hints, **opts)
+                    with_type_hints=hints, **ropts)
+        b = attempt(fsic.build_model, symbols, converter=make_converter(kind, log_b), with_type_hints=hints, **ropts)
         if d.ok and not b.ok and b.exc_name == 'BuildError':
             # build_model rejects a body that does not compile inside the method (e.g. a verbatim `from math import *`):
             # then the definition text must be just as unusable - the two routes reject together
@@ -256,6 +274,7 @@ def strategy():
         'opts': st.fixed_dictionaries({}, optional={'lags': opt, 'leads': opt, 'min_lags': st.integers(0, 3),
                                                     'min_leads': st.integers(0, 3)}),
         'converter': st.sampled_from(CONVERTERS),
+        'rep': tapes(4),
         'strip': st.one_of(st.none(), st.none(), st.integers(0, 3)),
         'extra': st.integers(0, 3),
         'tpos': st.integers(0, 2),
